@@ -34,6 +34,11 @@ fn c18_instruction_results_obey_the_limit() {
         ("repeated squaring", vec![0x36, 0x80, 0x02, 0x80, 0x02, 0x80, 0x02, 0x80, 0x02, 0x60, 0x00, 0x55, 0x00]),
         ("repeated add then mstore/mload", vec![0x36, 0x80, 0x01, 0x80, 0x01, 0x80, 0x01, 0x60, 0x00, 0x52, 0x60, 0x00, 0x51, 0x60, 0x00, 0x55, 0x00]),
         ("sha3 of memory", vec![0x36, 0x60, 0x00, 0x52, 0x60, 0x20, 0x60, 0x00, 0x20, 0x80, 0x01, 0x60, 0x00, 0x55, 0x00]),
+        // bulk copies whose offset / size operands are themselves grown values (symbolic size and constant size)
+        ("calldatacopy with grown symbolic offset and size", vec![0x36, 0x80, 0x01, 0x80, 0x01, 0x80, 0x80, 0x60, 0x00, 0x37, 0x60, 0x00, 0x51, 0x60, 0x00, 0x55, 0x00]),
+        ("calldatacopy with grown offset, constant size", vec![0x60, 0x20, 0x36, 0x80, 0x01, 0x80, 0x01, 0x60, 0x00, 0x37, 0x60, 0x00, 0x51, 0x60, 0x00, 0x55, 0x00]),
+        ("codecopy / returndatacopy with grown operands", vec![0x36, 0x80, 0x01, 0x80, 0x01, 0x80, 0x80, 0x60, 0x00, 0x39, 0x36, 0x80, 0x01, 0x80, 0x80, 0x60, 0x20, 0x3e, 0x60, 0x00, 0x51, 0x60, 0x00, 0x55, 0x00]),
+        ("folded memory key with a constant sub-expression", vec![0x60, 0x07, 0x60, 0x01, 0x60, 0x02, 0x01, 0x36, 0x01, 0x52, 0x00]),
     ];
     let mut cases = 0;
     for (name, code) in programs {
